@@ -52,7 +52,8 @@ def required_counters(tier):
         "target:origin", "target:absolute", "target:asterisk", "target:authority",
         "escape:valid", "escape:invalid",
         "prefix:exact", "prefix:under", "prefix:outside",
-        "peer:tcp", "peer:unix", "calls_compared", "odd-version-requests",
+        "peer:tcp", "peer:unix", "calls_compared", "odd-version-requests", "directed:fragment-targets",
+        "directed:underscore-field-with-continuation",
     ]
 
 
@@ -846,10 +847,62 @@ def check_odd_version(acc, data, cfg, unix, method, q, ver):
             acc.violation("header-missing", f"HTTP_X_ODD = {env.get('HTTP_X_ODD')!r}", case)
 
 
+def run_directed(acc, cfg, unix):
+    """(a) a target with a fragment and / or several leading slashes gives the same PATH_INFO and
+    QUERY_STRING as its single-slash form; (b) a field whose name contains an underscore is dropped
+    together with its folded continuation lines: they do not migrate into the field before it."""
+    h = harness(cfg, unix)
+    prefix = cfg.get("url_prefix") or ""
+    groups = {}
+    for tail in ("a/b#sec", "a/b#sec?x=1", "files/r#p=2?d=1", "a/b?x=1#frag", "a#", "a?#", "a/b", "a%23b#c", "#x", "?q#f"):
+        for slashes in ("/", "//", "///"):
+            data = b"GET " + (slashes + tail).encode() + b" HTTP/1.1\r\nHost: d.example\r\n\r\n"
+            res = h.run_recorded([data], addr=("127.0.0.1", 50000))
+            acc.evaluations += 1
+            acc.count("directed:fragment-targets")
+            case = {"stream": b2s(data), "config": cfg, "unix": bool(unix), "directed": "fragment"}
+            if res.exceptions:
+                acc.violation("exception:" + res.exceptions[0]["type"], f"exception escaped: {res.exceptions[0]}", case)
+                continue
+            got = None
+            if res.calls:
+                env = res.calls[0].environ
+                got = (env.get("PATH_INFO"), env.get("QUERY_STRING"), env.get("SCRIPT_NAME"))
+            groups.setdefault(tail, []).append((slashes, got, case))
+    if not prefix:
+        for tail, obs in groups.items():
+            ref = obs[0][1]
+            for slashes, got, case in obs[1:]:
+                if got != ref:
+                    acc.violation("path-info:leading-slashes-change-the-split",
+                                  f"target {slashes + tail!r} gives (PATH_INFO, QUERY_STRING, SCRIPT_NAME) = {got}, its single-slash form gives {ref}", case)
+    for name in (b"X_Auth_User", b"X_Auth-User", b"x-auth_user"):
+        for cont in (b"\t(admin)", b" (admin)", b" a\r\n\tb"):
+            data = b"GET /u HTTP/1.1\r\nHost: d.example\r\nX-Auth-User: alice\r\n" + name + b": mallory\r\n" + cont + b"\r\nX-After: z\r\n\r\n"
+            res = h.run_recorded([data], addr=("127.0.0.1", 50000))
+            acc.evaluations += 1
+            acc.count("directed:underscore-field-with-continuation")
+            case = {"stream": b2s(data), "config": cfg, "unix": bool(unix), "directed": "underscore-fold"}
+            if res.exceptions:
+                acc.violation("exception:" + res.exceptions[0]["type"], f"exception escaped: {res.exceptions[0]}", case)
+                continue
+            if not res.calls:
+                continue  # refusing the message is acceptable
+            env = res.calls[0].environ
+            v = env.get("HTTP_X_AUTH_USER")
+            if v is not None and v.strip() != "alice":
+                acc.violation("header-image-differs:continuation-of-a-dropped-field",
+                              f"HTTP_X_AUTH_USER = {v!r}: the continuation of the dropped underscore field joined the field before it", case)
+            if env.get("HTTP_X_AFTER") != "z":
+                acc.violation("header-image-differs", f"HTTP_X_AFTER = {env.get('HTTP_X_AFTER')!r}", case)
+
+
 def run_shard(spec):
     acc = Acc()
     rng = random.Random(spec["seed"])
     cfgs = shard_configs(spec.get("shard", 0))
+    for cfg, unix in cfgs[spec.get("shard", 0) % 6::12]:
+        run_directed(acc, cfg, unix)
     n = spec["n"]
     guard = 0
     for cfg, unix in cfgs[spec.get("shard", 0) % 4::8]:
@@ -895,6 +948,9 @@ def finish(agg, tier, coverage):
 
 def replay(case):
     acc = Acc()
+    if case.get("directed"):
+        run_directed(acc, case["config"], case.get("unix", False))
+        return [v for v in acc.violations]
     if case.get("odd_version"):
         m, q, v = (s2b(x) for x in case["odd_version"])
         check_odd_version(acc, s2b(case["stream"]), case["config"], case.get("unix", False), m, q, v)
